@@ -10,8 +10,10 @@
 (* lying at the location, which index files exist, what changed on disk.   *)
 (* Every line is one action of Alos2 taken with the logged arguments; the  *)
 (* observation must equal the action's `last'`.  Verdicts are total: one   *)
-(* per trace, naming the first line and clause that the specification      *)
-(* cannot explain.  Clauses "cells" / "written" compare the Design (how the*)
+(* per trace, naming the lines and clauses (the first eight) that the      *)
+(* specification cannot explain -- a check reports those of the classes its *)
+(* property owns, so an early breach of another property does not hide a    *)
+(* later one.  Clauses "cells" / "written" compare the Design (how the*)
 (* cache state evolves); all others are the properties' own statements.    *)
 (***************************************************************************)
 EXTENDS Alos2, Json, IOUtils
@@ -25,9 +27,9 @@ VARIABLES l, tid, bad, badLine,
           ndrift      \* number of such resynchronisations in this trace (Design drift, informational)
 tvars == <<l, tid, bad, badLine, needSync, ndrift>>
 
-Verdict == PrintT(<<"VERDICT", tid, IF bad = "" THEN "accepted" ELSE "rejected", badLine, bad, ndrift>>)
+Verdict == PrintT(<<"VERDICT", tid, IF bad = << >> THEN "accepted" ELSE "rejected", ndrift, bad>>)
 
-TInit == /\ Init /\ l = 2 /\ Lines[1].e = "hdr" /\ tid = Lines[1].tid /\ bad = "" /\ badLine = 0 /\ needSync = FALSE /\ ndrift = 0
+TInit == /\ Init /\ l = 2 /\ Lines[1].e = "hdr" /\ tid = Lines[1].tid /\ bad = << >> /\ badLine = 0 /\ needSync = FALSE /\ ndrift = 0
 
 Ev == Lines[l]
 Img(s) == s                                    \* image ids are logged as "a" / "b"
@@ -89,7 +91,7 @@ Consume ==
     /\ ENABLED Explain
     /\ Explain
     /\ LET c == Clause(Ev, last', local', adjacent') IN
-       IF bad = "" /\ c # "" THEN bad' = c /\ badLine' = l ELSE UNCHANGED <<bad, badLine>>
+       IF c # "" /\ Len(bad) < 8 THEN bad' = Append(bad, <<l, c>>) /\ badLine' = l ELSE UNCHANGED <<bad, badLine>>
     /\ needSync' = (HasCells(Ev) /\ ~CellsMatch(Ev, local', adjacent'))
     /\ l' = l + 1 /\ UNCHANGED <<tid, ndrift>>
 \* The cells are LOGGED state: where the real cache state left the Design (the library wrote or removed an index on its own, the CLI
@@ -107,12 +109,12 @@ Stuck ==
     /\ ~needSync
     /\ l <= Len(Lines) /\ Ev.e # "hdr"
     /\ ~ENABLED Explain
-    /\ (IF bad = "" THEN bad' = "not-enabled:" \o Ev.e /\ badLine' = l ELSE UNCHANGED <<bad, badLine>>)
+    /\ (IF bad = << >> THEN bad' = << <<l, "not-enabled:" \o Ev.e>> >> /\ badLine' = l ELSE UNCHANGED <<bad, badLine>>)
     /\ l' = l + 1 /\ UNCHANGED <<tid, vars, needSync, ndrift>>
 NewTrace ==
     /\ ~needSync
     /\ l <= Len(Lines) /\ Ev.e = "hdr" /\ Verdict
-    /\ tid' = Ev.tid /\ bad' = "" /\ badLine' = 0 /\ l' = l + 1 /\ needSync' = FALSE /\ ndrift' = 0
+    /\ tid' = Ev.tid /\ bad' = << >> /\ badLine' = 0 /\ l' = l + 1 /\ needSync' = FALSE /\ ndrift' = 0
     /\ store' = [x \in Locs |-> [ver |-> 0, dmg |-> [f \in Files |-> "ok"]]]
     /\ local' = [x \in Locs |-> [m \in ImageSet |-> Absent]] /\ adjacent' = [x \in Locs |-> [m \in ImageSet |-> Absent]]
     /\ cacheOK' = TRUE /\ tree' = [t \in Slots |-> NoTree] /\ ops' = 0 /\ last' = Quiet
